@@ -246,7 +246,8 @@ func main() {
 		_ = ints
 		_ = iop
 		// variants of the same case
-		if k < len(corpus) || r.Intn(3) == 0 {
+		// (the systematic aliasing family is large: its members run plainly, twice, only)
+		if (k < len(corpus) && c.family != "alias") || r.Intn(3) == 0 {
 			w := emit(k, wrapTry(c))
 			if res.fault && w.halt {
 				o.Count("throw:catchable")
@@ -254,7 +255,7 @@ func main() {
 				o.Count("fault:uncatchable")
 			}
 		}
-		if res.halt && c.priced && res.gas > 0 && (k < len(corpus) || r.Intn(8) == 0) {
+		if res.halt && c.priced && res.gas > 0 && ((k < len(corpus) && c.family != "alias") || r.Intn(8) == 0) {
 			// gas boundary: exactly enough, one unit short
 			for _, lim := range []int64{res.gas, res.gas - 1} {
 				c2 := *c
